@@ -28,6 +28,13 @@ BUDGET_S = {"quick": 100, "thorough": 1200}
 DECIDING = ["conv_roundtrip", "conv_monotonic", "sec_roundtrip", "run_steps", "run_epochs"]
 
 
+MANIFEST = {
+    "technique": "runtime monitoring: integer-calendar reference sweep of the date conversions; real timed Scenario runs (single and multi-leg, driven like runResonaate) with a step counter and epoch audit",
+    "level_text": "held on every sampled whole-second instant 1901-2099 (round trip, value, monotonicity, second offsets) and every executed (start, step, duration) run: floor(D/step) steps per request, epochs = start + k*step",
+    "level_note": "sampled instants/configurations; executor replaced by the ray stand-in for the timed runs",
+}
+
+
 def _instants(ctx, n):
     rng = ctx.pyrng("inst")
     out = []
